@@ -145,17 +145,17 @@ register("C13", run=run_c13, tie="coq/SegLog/Cases.v vs log/log.go, log/segment.
 # which events a property's theorems speak about (a disagreement between model and code on one of
 # these breaks the tie for that property); monitor tags the property owns
 NODE_PROPS = {
- "C01": dict(events={"EVoteReq", "EVoteResult", "ETimeout", "ETimeoutNowReq", "ERestart", "LReplUpdate", "EAppendReq"}, tags={"C01", "C05"}),
- "C02": dict(events={"EAppendReq", "ESnapReq", "LClient", "LReplUpdate", "LFlrSend", "LFlrResp", "EVoteReq", "ERestart", "LFlrSnapInstalled"}, tags={"C02"}),
- "C03": dict(events={"EAppendReq", "ESnapReq", "LClient", "LReplUpdate", "ERestart", "ESnapRun"}, tags={"C03"}),
- "C04": dict(events={"EAppendReq", "LFlrSend", "LClient", "ESnapReq", "ERestart"}, tags={"C04"}),
+ "C01": dict(events={"EVoteReq", "EVoteResult", "ETimeout", "ETimeoutNowReq", "ERestart", "LReplUpdate", "EAppendReq", "EAppendReqCut"}, tags={"C01", "C05"}),
+ "C02": dict(events={"EAppendReq", "EAppendReqCut", "ESnapReq", "LClient", "LReplUpdate", "LFlrSend", "LFlrResp", "EVoteReq", "ERestart", "LFlrSnapInstalled"}, tags={"C02"}),
+ "C03": dict(events={"EAppendReq", "EAppendReqCut", "ESnapReq", "LClient", "LReplUpdate", "ERestart", "ESnapRun"}, tags={"C03"}),
+ "C04": dict(events={"EAppendReq", "EAppendReqCut", "LFlrSend", "LClient", "ESnapReq", "ERestart"}, tags={"C04"}),
  "C05": dict(events={"EVoteReq", "EVoteResult", "ETimeout", "ETimeoutNowReq", "ERestart", "LReplUpdate", "ETask"}, tags={"C05"}),
- "C06": dict(events={"LReplUpdate", "LFlrResp", "EAppendReq", "LClient", "LChangeConfig"}, tags={"C06"}),
+ "C06": dict(events={"LReplUpdate", "LFlrResp", "EAppendReq", "EAppendReqCut", "LClient", "LChangeConfig"}, tags={"C06"}),
  "C07": dict(events={"LClient", "ETask", "LReplUpdate", "LTransfer"}, tags={"C07"}),
- "C08": dict(events={"LChangeConfig", "LReplUpdate", "LClient", "EAppendReq", "LTransferTimeout", "ERestart"}, tags={"C08"}),
+ "C08": dict(events={"LChangeConfig", "LReplUpdate", "LClient", "EAppendReq", "EAppendReqCut", "LTransferTimeout", "ERestart"}, tags={"C08"}),
  "C09": dict(events={"ESnapRun", "ESnapTaken", "ETask", "ESnapReq", "LFlrSnapInstalled", "LFlrUpdate", "LFlrSend", "ERestart", "LReplUpdate",
                      "EVoteResult", "ETimeout", "ETimeoutNowReq"}, tags={"C09"}),  # becoming leader initialises the compaction boundary and the views
- "C11": dict(events={"ETimeout", "ETimeoutNowReq", "ETask", "LReplUpdate", "LChangeConfig", "EAppendReq", "LClient"}, tags={"C11"}),
+ "C11": dict(events={"ETimeout", "ETimeoutNowReq", "ETask", "LReplUpdate", "LChangeConfig", "EAppendReq", "EAppendReqCut", "LClient"}, tags={"C11"}),
  "C12": dict(events={"ESnapRun", "ESnapTaken", "ETask", "ESnapReq", "ERestart", "LReplUpdate", "LChangeConfig", "LClient"}, tags={"C12"}),  # a pending label must survive them
  "C15": dict(events=None, tags={"C15"}),
  "C16": dict(events={"LTransfer", "LTimeoutNowResult", "LTransferTimeout", "LNewTermTimeout", "ETimeoutNowReq", "LClient", "LReplUpdate", "LChangeConfig",
@@ -457,7 +457,7 @@ def run_c10(pid, tier, seed):
             continue
         for i in ids:
             kind = meta.get("kinds", {}).get(str(i))
-            if kind in ("ERestart", "ESnapReq", "EAppendReq", "EVoteReq", "ESnapRun", "ESnapTaken", "ETask"):
+            if kind in ("ERestart", "ESnapReq", "EAppendReq", "EAppendReqCut", "EVoteReq", "ESnapRun", "ESnapTaken", "ETask"):
                 viols.append({"signature": "node-mismatch %s" % kind, "found": True,
                               "detail": "model and implementation disagree on case %d (%s)" % (i, meta["desc"].get(str(i))),
                               "replay": {"property": pid, "kind": "node-correspondence", "case_id": i, "case_file": f, "event": kind}})
